@@ -2430,4 +2430,72 @@ theorem precompute_fits (bits nC g : Nat) (ntr : List (Nat × Nat))
     obtain ⟨a1, a2, a3⟩ := this
     exact ⟨by omega, by omega, by omega⟩
 
+
+/-! ### any assignment of the chunks to workers -/
+
+theorem precompute_eq_loads (nC g : Nat) (ntr : List (Nat × Nat))
+    (files : List (Nat × List CellRec)) (rows nProc : Nat) :
+    precompute nC g ntr files rows nProc
+      = (match workSplit (files.filter (fun f => wanted ntr f.2)) rows nProc with
+          | .error e => .error e
+          | .ok loads => precomputeLoads nC g ntr loads) := rfl
+
+theorem precomputeLoads_spec (nC g : Nat) (ntr : List (Nat × Nat)) (loads : List (List Chunk))
+    (hntr : ∀ p ∈ ntr, p.2 < nC) (hne : loads ≠ []) :
+    ∃ buf, precomputeLoads nC g ntr loads = .ok buf ∧ buf.length = nC ∧
+      ∀ c : Nat, c < nC →
+        buf[c]? = some ((Row.zero g).add (S ntr c (loads.flatten.flatMap (·.cells)))) := by
+  obtain ⟨bufs, hbufs, hF⟩ := mapMExcept_ok (processSpec nC g ntr)
+    (fun (l : List Chunk) (b : Buffer) => b.length = nC ∧
+      ∀ c : Nat, c < nC → b[c]? = some ((Row.zero g).add (S ntr c (l.flatMap (·.cells))))) loads
+    (fun l _ => by
+      obtain ⟨b, h1, h2, h3⟩ := processSpec_spec nC g ntr l hntr
+      exact ⟨b, h1, h2, h3⟩)
+  have hbufs_ne : bufs ≠ [] := by
+    intro h; subst h
+    cases hF
+    exact hne rfl
+  obtain ⟨h1, h2⟩ := foldl_bufZipAdd nC g (fun c (l : List Chunk) => S ntr c (l.flatMap (·.cells)))
+    loads bufs hF (zeroBuffer nC g) (fun _ => Row.empty) (by simp [zeroBuffer])
+    (fun c hc => by simp [zeroBuffer, hc])
+  refine ⟨bufs.foldl bufZipAdd (zeroBuffer nC g), ?_, h1, fun c hc => ?_⟩
+  · simp only [precomputeLoads, hbufs]
+    cases bufs with
+    | nil => exact absurd rfl hbufs_ne
+    | cons b bs => simp [mergeBuffers]
+  · rw [h2 c hc, Row.empty_add, S_flatten]
+
+theorem S_perm (ntr : List (Nat × Nat)) (c : Nat) {A B : List CellRec} (h : A.Perm B) :
+    S ntr c A = S ntr c B := by
+  simp only [S, cellsOfRow]
+  exact rowSum_perm ((h.filter _).map _)
+
+theorem precomputeLoads_perm_spec (nC g : Nat) (ntr : List (Nat × Nat))
+    (files : List (Nat × List CellRec)) (rows : Nat) (loads : List (List Chunk))
+    (hrows : 1 ≤ rows) (hntr : ∀ p ∈ ntr, p.2 < nC) (hne : loads ≠ [])
+    (hperm : loads.flatten.Perm (allChunks ntr files rows)) :
+    ∃ buf, precomputeLoads nC g ntr loads = .ok buf ∧ buf.length = nC ∧
+      ∀ c : Nat, c < nC → buf[c]? = some ((Row.zero g).add (S ntr c (files.flatMap (·.2)))) := by
+  obtain ⟨buf, h1, h2, h3⟩ := precomputeLoads_spec nC g ntr loads hntr hne
+  refine ⟨buf, h1, h2, fun c hc => ?_⟩
+  rw [h3 c hc, S_perm ntr c (hperm.flatMap_right _)]
+  simp only [allChunks, allChunks_cells _ _ hrows]
+  simp only [S, cellsOfRow_filter_wanted]
+
+theorem precomputeLoads_eq_precompute (nC g : Nat) (ntr : List (Nat × Nat))
+    (files : List (Nat × List CellRec)) (rows nProc : Nat) (loads : List (List Chunk))
+    (hrows : 1 ≤ rows) (hproc : 1 ≤ nProc) (hntr : ∀ p ∈ ntr, p.2 < nC)
+    (hw : ∃ f ∈ files, wanted ntr f.2 = true) (hne : loads ≠ [])
+    (hperm : loads.flatten.Perm (allChunks ntr files rows)) :
+    precomputeLoads nC g ntr loads = precompute nC g ntr files rows nProc := by
+  obtain ⟨b₁, e₁, l₁, r₁⟩ := precomputeLoads_perm_spec nC g ntr files rows loads hrows hntr hne hperm
+  obtain ⟨b₂, e₂, l₂, r₂⟩ := precompute_spec nC g ntr files rows nProc hrows hproc hntr hw
+  rw [e₁, e₂]
+  congr 1
+  apply List.ext_getElem?
+  intro c
+  by_cases hc : c < nC
+  · rw [r₁ c hc, r₂ c hc]
+  · rw [List.getElem?_eq_none (by omega), List.getElem?_eq_none (by omega)]
+
 end CTM.Stats
